@@ -60,6 +60,11 @@ var LineDeviations = []Deviation{
 	{"xref-space-inside", func(l *Line) { l.Xref = "@X 1@ " }},
 	{"xref-unterminated", func(l *Line) { l.Xref = "@X1 " }},
 	{"xref-no-space", func(l *Line) { l.Xref = "@X1@" }},
+	{"xref-double-space", func(l *Line) { l.Xref = "@X1@  " }},
+	{"xref-tab", func(l *Line) { l.Xref = "@X1@\t" }},
+	{"xref-empty", func(l *Line) { l.Xref = "@@ " }},
+	{"xref-double-at", func(l *Line) { l.Xref = "@X1@@ " }},
+	{"sep-level-tab", func(l *Line) { l.Sep1 = "\t" }},
 	{"tag-NAME", func(l *Line) { l.Tag = "NAME" }},
 	{"tag-INDI", func(l *Line) { l.Tag = "INDI"; l.Xref = "@I1@ " }},
 	{"tag-INDI-noxref", func(l *Line) { l.Tag = "INDI" }},
